@@ -22,6 +22,7 @@ import (
 	pkgtime "github.com/smart-core-os/sc-golang/pkg/time"
 	"github.com/smart-core-os/sc-golang/pkg/trait/electricpb/modepb"
 	"github.com/smart-core-os/sc-golang/pkg/trait/electricpb/segmentpb"
+	"github.com/smart-core-os/sc-golang/pkg/trait/openclosepb"
 )
 
 func purePrograms() []program {
@@ -74,9 +75,19 @@ func purePrograms() []program {
 			}
 		})
 	})
-	add("masks/RemovePrefix on one mask object", func() {
-		m := &fieldmaskpb.FieldMask{Paths: []string{"states.open_percent", "states.direction", "preset"}}
+	add("masks/RemovePrefix on one mask object (path slice with room behind its paths)", func() {
+		paths := make([]string, 0, 8)
+		m := &fieldmaskpb.FieldMask{Paths: append(paths, "states.open_percent", "states.direction", "preset")}
 		twice(func() { touch(masks.RemovePrefix("states", m)) })
+	})
+	add("openclose/UpdatePositions||UpdatePositions, one update mask object (path slice with room behind its paths)", func() {
+		oc := openclosepb.NewModel()
+		paths := make([]string, 0, 8)
+		m := &fieldmaskpb.FieldMask{Paths: append(paths, "states.open_percent")}
+		twice(func() {
+			r, _ := oc.UpdatePositions(&traits.OpenClosePositions{States: []*traits.OpenClosePosition{{OpenPercent: 40}}}, resource.WithUpdateMask(m))
+			touch(r)
+		})
 	})
 	add("cmp/one comparer used by two threads on the same pair", func() {
 		eq := cmp.Equal(cmp.FloatValueApprox(0.1, 0.5), cmp.TimeValueWithin(time.Second), cmp.DurationValueWithin(time.Second))
